@@ -9,13 +9,13 @@ their character codes (`_` = empty string); a separator as its character code.
        rows: `x,y,z,Y,M,D,h,m,s,ms[,af…];…`   af: `<int>` | `D<n>:<d>` (float n/10^d) | `S<hex>` (str) | `nan` | `inf` | `-inf`
                                         → W:<hex text>|werr:<kind>   R:ok <rows>|err:<kind>
                                           with readAll = 1:  R:ok <rows> A:<names>|<values> (or R:err:<kind>)
+                                          with readAll = 2:  written through the front end TrackWriter.writeToCsv
        read rows: `xm/xd,ym/yd,zm/zd,Y,M,D,h,m,s,ms;…`
        names `<hex>,…`; values `v,…;…` per observation, v: `m/d` | `nan` | `inf` | `-inf` | `S<hex>`
   net  <sep> <h> <hdrR> <d> <posDir> <edges>     edges: `id,src,tgt,orient,x:y|x:y…;…` (ids in hex)
                                         → W:<hex> R:ok <edges> N:<nodes> | R:err:<kind>
   wkt  <d> <pts>   pts: `x:y|x:y…`      → W:<hex> R:ok x:y:z|… | R:err:<kind>
   gpx  <geo> <rfmt> <name> <rows>       → W:<hex> R:ok <track>|<track> | R:err:<kind>
-  wktecef <n>                           → W:<hex> R:…                    (toWKT of an ECEF track of n points, parsed back)
   wktparse <hex text>                   → ok x:y:z|… | err:<kind>        (TrackReader.parseWkt on any text)
   gpxaf <geo> <rfmt> <name> <naf> <names> <rows>   the same with `af=True`: names `<hex>,…`, rows with af tokens -/
 namespace TV.Drv.C13
@@ -120,7 +120,8 @@ def handleCsv (geo ie iN iu it sep h hr pf rf naf rows srid names ra : String) :
       | some rws =>
         if ie < -1 ∨ iN < -1 ∨ iu < -1 ∨ it < -1 then "bad-request" else
         let f : CsvFmt := ⟨ie, iN, iu, it, sep⟩
-        match writeToFile f (geo == 1) (tokenize pf) h naf rws srid names with
+        match (if ra == "2" then writeToCsv f (geo == 1) (tokenize pf) h (rws.map (fun x => x.1)) srid
+                 else writeToFile f (geo == 1) (tokenize pf) h naf rws srid names) with
         | .error e => s!"werr:{e} R:none"
         | .ok text =>
           let r := if ra == "1" then
@@ -187,15 +188,6 @@ def handle (cmd : String) (args : List String) : String :=
         | .error e => s!"err:{e}"
       s!"W:{toHex text} R:{r}"
     | _, _, _, _ => "bad-request"
-  | "wktecef", [n] =>
-    match n.toNat? with
-    | some n =>
-      let text := toWKTEcef n
-      let r := match parseWkt text with
-        | .ok vs => "ok " ++ joinWith "|" (vs.map showV3)
-        | .error e => s!"err:{e}"
-      s!"W:{toHex text} R:{r}"
-    | none => "bad-request"
   | "wktparse", [text] =>
     match unhex? text with
     | some t =>
